@@ -40,6 +40,16 @@ pub mod access {
 //@@ extract cx_credentials file=crates/s3s/src/access/context.rs item="impl S3AccessContext<'_>/fn credentials" rewrites=attr,ret
     }
 //@@ extract default_check file=crates/s3s/src/access/mod.rs item="fn default_check" rewrites=attr,ret,pubcrate
+    pub mod generated {
+        use vstd::prelude::*;
+        use crate::error::*;
+        use super::S3AccessContext;
+        /// an access provider that leaves `S3Access::check` at its default body (the trait method is checked as an inherent one)
+        pub struct AccessObj { pub opaque: u64 }
+        impl AccessObj {
+//@@ extract access_check_default file=crates/s3s/src/access/generated.rs item="trait S3Access/fn check" rewrites=attr,async,ret
+        }
+    }
 }
 
 pub mod signature {
